@@ -109,6 +109,10 @@ def check_wait_signal(p, reach, r):
                 elts = a.elts if isinstance(a, ast.List) else listvars.get(a.id, []) if isinstance(a, ast.Name) else []
                 cands += [e for e in elts if event_attr_of(e)]
             if isinstance(v, ast.Name):
+                # `x = self.resume_event` ; yield x   (a local alias of the event attribute)
+                for m in walk_no_nested(fi.node):
+                    if isinstance(m, ast.Assign) and any(isinstance(t, ast.Name) and t.id == v.id for t in m.targets) and event_attr_of(m.value):
+                        cands.append(m.value)
                 # `x = self.env.any_of(event_list)` ; yield x
                 for m in walk_no_nested(fi.node):
                     if isinstance(m, ast.Assign) and any(isinstance(t, ast.Name) and t.id == v.id for t in m.targets) and isinstance(m.value, ast.Call) \
@@ -189,6 +193,10 @@ def check_handlers(p, r):
                 why = None
                 if not any(rc[1] == ('self', 'resume_event') for rc in waited):
                     why = ('after an Interrupt the process does not wait for self.resume_event before it travels on: the item keeps moving during the stall')
+                elif any(stale_resume_read(fi, rc[2]) for rc in waited if rc[1] == ('self', 'resume_event')):
+                    why = ('the resume event the interrupted process waits on was read before the interruption (captured in a local at the start of the leg): a '
+                           'release in between replaces self.resume_event, so the process waits on an event that has already fired and travels on at once, '
+                           'through the items stopped ahead of it')
                 elif rest[j][0] in ('timeout', 'skipped'):
                     d2 = rest[j][1]
                     ep = e1.epoch
@@ -381,6 +389,24 @@ def dispatch_states(stmts, env, stop_at_yield):
         return False
     walk(stmts)
     return got
+
+
+def stale_resume_read(fi, ev) -> bool:
+    """the awaited expression of this resume wait is a local that was bound outside the interrupt handler the wait sits in (i.e. before the interruption)"""
+    txt = (ev.d.get('text') or '').strip()
+    if not txt.isidentifier():
+        return False
+    # handler that contains the wait (code inlined from sub-generators keeps its own AST; search the whole class would be overkill: the function and its helpers)
+    line = ev.line
+    best = None
+    for n in ast.walk(fi.node):
+        if isinstance(n, ast.ExceptHandler) and n.lineno <= line <= max(getattr(x, 'end_lineno', n.lineno) or n.lineno for x in ast.walk(n) if hasattr(x, 'lineno')):
+            if best is None or n.lineno > best.lineno:
+                best = n
+    if best is None:
+        return False
+    inside = any(isinstance(x, ast.Assign) and any(isinstance(t, ast.Name) and t.id == txt for t in x.targets) and x.lineno <= line for x in ast.walk(best))
+    return not inside
 
 
 def check_transitions(p, r):
